@@ -189,3 +189,21 @@ func Harness_C10_UnionWithSlicePayload() {
 	c10Check(c10RecU2{"n", u}, c10RecU2{"n", w}, false, "record holding different union cases")
 	verifCover("end")
 }
+
+// windows of ONE backing array (what Tail / PopLast / Take-free sub-slicing
+// hand to a Folang program): same start with different lengths, different
+// starts with the same length, and a window against itself.
+func Harness_C10_AliasedSlices() {
+	n := verifChoice("n", 4)
+	arr := verifIntSlice("arr", n)
+	lo1 := verifChoice("lo1", n+1)
+	hi1 := lo1 + verifChoice("len1", n+1-lo1)
+	lo2 := verifChoice("lo2", n+1)
+	hi2 := lo2 + verifChoice("len2", n+1-lo2)
+	x, y := arr[lo1:hi1], arr[lo2:hi2]
+	c10Check(x, y, c10SameInts(x, y), "two windows of one array")
+	c10Check(NewTuple2(1, x), NewTuple2(1, y), c10SameInts(x, y), "tuples holding two windows of one array")
+	var u, v c10Union = c10Union_D{x}, c10Union_D{y}
+	c10Check(u, v, c10SameInts(x, y), "union cases holding two windows of one array")
+	verifCover("end")
+}
